@@ -96,6 +96,15 @@ theorem nextvis_eq_elems {f : Format} {s : St} {src : Src} {x : Option UInt8} {s
   have := nextvis_elems f s src; rw [h] at this; exact this
 
 /-! ### `mpt_parse_data` keeps the elements -/
+theorem optFirst_eq_elems {f : Format} {s : St} {src : Src} {x : Option UInt8} {s1 : St} {src1 : Src}
+    (h : optFirst f s src = (x, s1, src1)) : s1.path.elems = s.path.elems := by
+  unfold optFirst at h
+  split at h
+  · split at h
+    · simp only [Prod.mk.injEq] at h; rw [← h.2.1]
+    · simp only [Prod.mk.injEq] at h; rw [← h.2.1]
+  · exact nextvis_eq_elems h
+
 def DataExit.st : DataExit → St
   | .oend s => s | .newline s => s | .comment s => s | .eof s => s
 
@@ -202,7 +211,7 @@ theorem parseOption_good (cfg : Cfg) (s : St) (src : Src) : Good s.path.elems (p
       · exact good_err _ _ _ _
       · exact Or.inl (by simp)
   · rename_i c s1 src1 h
-    have he := nextvis_eq_elems h
+    have he := optFirst_eq_elems h
     split
     · exact good_err _ _ _ _
     · split
